@@ -659,4 +659,189 @@ theorem next_sep_walk (w : SolarWeek) (n : Nat) (hn : 1 ≤ n) (hv : validYmd w.
   refine ⟨r, ?_, h4⟩
   rw [e, Int.natAbs_natCast]; exact er
 
+/-! ### backward -/
+
+/-- previous position in the sequence (month, week 1..k) -/
+def predPos (start : Int) (p : Int × Int × Int) : Int × Int × Int :=
+  if 1 < p.2.2 then (p.1, p.2.1, p.2.2 - 1)
+  else ((nextYm p.1 p.2.1 (-1)).1, (nextYm p.1 p.2.1 (-1)).2,
+        weeksOfMonth (nextYm p.1 p.2.1 (-1)).1 (nextYm p.1 p.2.1 (-1)).2 start)
+
+theorem predPos_gt (start y m i : Int) (h : 1 < i) : predPos start (y, m, i) = (y, m, i - 1) := by
+  unfold predPos; simp only [h, if_true]
+
+theorem predPos_le (start y m i : Int) (h : ¬ 1 < i) :
+    predPos start (y, m, i) = ((nextYm y m (-1)).1, (nextYm y m (-1)).2,
+        weeksOfMonth (nextYm y m (-1)).1 (nextYm y m (-1)).2 start) := by
+  unfold predPos; simp only [h, if_false]
+
+/-- this month starts right after the previous one ends -/
+theorem jdn_prevYm (y m : Int) (hm : 1 ≤ m ∧ m ≤ 12) :
+    jdn y m 1 = jdn (nextYm y m (-1)).1 (nextYm y m (-1)).2 1 + daysOfMonth (nextYm y m (-1)).1 (nextYm y m (-1)).2 := by
+  obtain ⟨a1, a2, a3⟩ := nextYm_spec y m (-1) hm.1 hm.2
+  have h := jdn_nextYm (nextYm y m (-1)).1 (nextYm y m (-1)).2 ⟨a1, a2⟩
+  have e := nextYm_inv y m (-1) hm
+  simp only [Int.neg_neg] at e
+  rw [e] at h
+  exact h
+
+/-- backward loop invariant: the current date `c` lies in the week of the current `week` value, not after it -/
+def SepInvB (start : Int) (c : Solar) (wk : SolarWeek) : Prop :=
+  c.valid = true ∧ validYmd wk.year wk.month wk.day = true ∧ wk.start = start ∧
+  c.jdn ≤ jdn wk.year wk.month wk.day ∧ jdn wk.year wk.month wk.day ≤ c.jdn - (c.jdn + 7000001 - start) % 7 + 6
+
+theorem sep_step_bwd (start : Int) (hs : 0 ≤ start ∧ start ≤ 6) (k : Nat) (c : Solar) (wk : SolarWeek)
+    (hI : SepInvB start c wk) (hy : 1583 * 12 + 1 ≤ wk.year * 12 + (wk.month - 1)) :
+    ∃ c' wk', nextSepLoop start false (k + 1) c wk wk.month = nextSepLoop start false k c' wk' wk'.month ∧
+      SepInvB start c' wk' ∧ wk.year * 12 + (wk.month - 1) - 1 ≤ wk'.year * 12 + (wk'.month - 1) ∧
+      weekPos wk' = predPos start (weekPos wk) := by
+  obtain ⟨hcv, hwv, hst, hle, hge⟩ := hI
+  obtain ⟨hm1, hm2, _⟩ := (validYmd_iff_step _ _ _).1 hwv
+  have hm : 1 ≤ wk.month ∧ wk.month ≤ 12 := ⟨hm1, hm2⟩
+  have hn : ¬ (wk.year = 1582 ∧ wk.month = 10) := by omega
+  obtain ⟨_, _, hd1, hd2⟩ := range_of_valid _ _ _ hwv hn
+  have hjw := jdn_lin _ _ _ hwv hn
+  have hb := daysOfMonth_bounds wk.year wk.month hm1 hm2
+  have hjp := jdn_prevYm wk.year wk.month hm
+  obtain ⟨hn1, hn2, hn3⟩ := nextYm_spec wk.year wk.month (-1) hm1 hm2
+  have hpos : weekPos wk = (wk.year, wk.month, (wk.day + (jdn wk.year wk.month 1 + 7000001 - start) % 7 + 6) / 7) := by
+    unfold weekPos; rw [← index_eq _ _ _ _ hs, ← hst]
+  have hple := predPos_le start wk.year wk.month ((wk.day + (jdn wk.year wk.month 1 + 7000001 - start) % 7 + 6) / 7)
+  generalize hy' : (nextYm wk.year wk.month (-1)).1 = y' at *
+  generalize hm' : (nextYm wk.year wk.month (-1)).2 = m' at *
+  have hwom' := weeksOfMonth_eq y' m' start hs
+  have hmne : m' ≠ wk.month := by omega
+  have hn' : ¬ (y' = 1582 ∧ m' = 10) := by omega
+  have hb' := daysOfMonth_bounds y' m' hn1 hn2
+  obtain ⟨c1, e1, hc1v, hj1, _⟩ := nextDay_spec_strong c (-7) hcv
+  have hc1p := (valid_parts c1 hc1v).1
+  simp only [Solar.jdn] at hj1 hle hge
+  rw [nextSepLoop]
+  simp only [Bool.false_eq_true, if_false, e1]
+  by_cases hsame : jdn wk.year wk.month 1 ≤ jdn c1.year c1.month c1.day
+  · -- same month
+    obtain ⟨ey, em⟩ := month_of_jdn _ _ _ _ _ hm hc1p hsame (by omega)
+    have hc : ¬ (wk.month ≠ (weekOf c1 start).month) := by simp only [weekOf, em]; omega
+    rw [if_neg hc]
+    obtain ⟨hjc1, hd1', hd2', hidx1, hpos1⟩ := in_month_facts c1 _ _ start hs hc1p ey em hn
+    refine ⟨c1, weekOf c1 start, by simp only [weekOf, em], ⟨hc1v, hc1p, rfl, ?_, ?_⟩, ?_, ?_⟩
+    · simp only [weekOf, Solar.jdn]; omega
+    · simp only [weekOf, Solar.jdn]; omega
+    · simp only [weekOf]; omega
+    · rw [hpos, predPos_gt _ _ _ _ (by omega), hpos1]
+      simp only [Prod.mk.injEq, true_and]
+      omega
+  · -- c - 7 is in the previous month
+    obtain ⟨ey, em⟩ := month_of_jdn y' m' _ _ _ ⟨hn1, hn2⟩ hc1p (by omega) (by omega)
+    have hc : wk.month ≠ (weekOf c1 start).month := by simp only [weekOf, em]; omega
+    rw [if_pos hc]
+    obtain ⟨hjc1, hd1', hd2', hidx1, hpos1⟩ := in_month_facts c1 _ _ start hs hc1p ey em hn'
+    have hwk1y : (weekOf c1 start).year = y' := ey
+    have hwk1m : (weekOf c1 start).month = m' := em
+    rw [hwk1y, hwk1m]
+    by_cases hi1 : weeksOfMonth y' m' start = (weekOf c1 start).index
+    · rw [if_pos hi1]
+      obtain ⟨fd, efd, hfdv, _, hfdj, _⟩ := firstDay_core (weekOf c1 start) hc1p hs
+      obtain ⟨ld, eld, hldv, hldj, _⟩ := nextDay_spec_strong fd 6 hfdv
+      have hldp := (valid_parts ld hldv).1
+      simp only [weekOf, Solar.jdn] at hfdj hldj
+      rw [efd]
+      simp only
+      rw [eld]
+      simp only
+      rw [hidx1, hwom'] at hi1
+      by_cases hfl : jdn wk.year wk.month 1 ≤ jdn ld.year ld.month ld.day
+      · -- the last day is in the current month
+        obtain ⟨fy, fm⟩ := month_of_jdn _ _ _ _ _ hm hldp hfl (by omega)
+        obtain ⟨hjf, hf1', hf2', _, hposf⟩ := in_month_facts ld _ _ start hs hldp fy fm hn
+        refine ⟨c1, weekOf ld start, rfl, ⟨hc1v, hldp, rfl, ?_, ?_⟩, ?_, ?_⟩
+        · simp only [weekOf, Solar.jdn]; omega
+        · simp only [weekOf, Solar.jdn]; omega
+        · simp only [weekOf]; omega
+        · rw [hpos, predPos_gt _ _ _ _ (by omega), hposf]
+          simp only [Prod.mk.injEq, true_and]
+          omega
+      · -- the last day is the last day of the previous month
+        obtain ⟨fy, fm⟩ := month_of_jdn y' m' _ _ _ ⟨hn1, hn2⟩ hldp (by omega) (by omega)
+        obtain ⟨hjf, hf1', hf2', _, hposf⟩ := in_month_facts ld _ _ start hs hldp fy fm hn'
+        refine ⟨c1, weekOf ld start, rfl, ⟨hc1v, hldp, rfl, ?_, ?_⟩, ?_, ?_⟩
+        · simp only [weekOf, Solar.jdn]; omega
+        · simp only [weekOf, Solar.jdn]; omega
+        · simp only [weekOf]; omega
+        · rw [hpos, hple (by omega), hposf, hwom']
+          simp only [Prod.mk.injEq, true_and]
+          omega
+    · rw [if_neg hi1]
+      rw [hidx1, hwom'] at hi1
+      have hv2 := valid_of_range y' m' (daysOfMonth y' m') ⟨hn1, hn2⟩ hn' (by omega) (by omega)
+      obtain ⟨e2, hc2v⟩ := newSolarYmd_some y' m' _ hv2
+      obtain ⟨hj2, _, _, _, hpos2⟩ := in_month_facts ⟨y', m', daysOfMonth y' m', 0, 0, 0⟩ y' m' start hs hv2 rfl rfl hn'
+      simp only [e2]
+      simp only at hj2
+      refine ⟨_, _, rfl, ⟨hc2v, hv2, rfl, ?_, ?_⟩, ?_, ?_⟩
+      · simp only [weekOf, Solar.jdn]; omega
+      · simp only [weekOf, Solar.jdn]; omega
+      · simp only [weekOf]; omega
+      · rw [hpos, hple (by omega), hpos2, hwom']
+
+theorem sep_walk_bwd (start : Int) (hs : 0 ≤ start ∧ start ≤ 6) (n : Nat) : ∀ (c : Solar) (wk : SolarWeek),
+    SepInvB start c wk → 1583 * 12 + (n : Int) ≤ wk.year * 12 + (wk.month - 1) →
+    ∃ r, nextSepLoop start false n c wk wk.month = some r ∧ r.start = start ∧
+      validYmd r.year r.month r.day = true ∧
+      weekPos r = Nat.iterate (predPos start) n (weekPos wk) := by
+  induction n with
+  | zero =>
+    intro c wk hI _
+    exact ⟨wk, rfl, hI.2.2.1, hI.2.1, rfl⟩
+  | succ k ih =>
+    intro c wk hI hy
+    obtain ⟨c', wk', e, hI', ho, hp⟩ := sep_step_bwd start hs k c wk hI (by omega)
+    obtain ⟨r, er, h1, h2, h4⟩ := ih c' wk' hI' (by omega)
+    refine ⟨r, by rw [e, er], h1, h2, ?_⟩
+    rw [h4, hp]
+    rfl
+
+/-- n steps backwards in month-separated mode move n positions back, as long as the walk stays after 1582 -/
+theorem prev_sep_walk (w : SolarWeek) (n : Nat) (hn : 1 ≤ n) (hv : validYmd w.year w.month w.day = true) (hs : 0 ≤ w.start ∧ w.start ≤ 6)
+    (hy : 1583 * 12 + (n : Int) ≤ w.year * 12 + (w.month - 1)) :
+    ∃ r, w.next (-(n : Int)) true = some r ∧ r.start = w.start ∧ validYmd r.year r.month r.day = true ∧
+      weekPos r = Nat.iterate (predPos w.start) n (weekPos w) := by
+  obtain ⟨e, hcv⟩ := newSolarYmd_some _ _ _ hv
+  have hI : SepInvB w.start ⟨w.year, w.month, w.day, 0, 0, 0⟩ w := by
+    refine ⟨hcv, hv, rfl, ?_, ?_⟩
+    · simp only [Solar.jdn]; omega
+    · simp only [Solar.jdn]; omega
+  obtain ⟨r, er, h1, h2, h4⟩ := sep_walk_bwd w.start hs n _ _ hI hy
+  refine ⟨r, ?_, h1, h2, h4⟩
+  unfold SolarWeek.next
+  have h0 : ¬ (-(n : Int)) = 0 := by omega
+  have h1 : decide (-(n : Int) > 0) = false := by simp only [decide_eq_false_iff_not]; omega
+  simp only [h0, if_false, e, if_true, h1, Int.natAbs_neg, Int.natAbs_natCast]
+  exact er
+
 end Model
+
+#print axioms Model.firstDay_spec
+#print axioms Model.days_spec
+#print axioms Model.daysInMonth_spec
+#print axioms Model.index_first
+#print axioms Model.index_succ
+#print axioms Model.indexInYear_first
+#print axioms Model.indexInYear_succ
+#print axioms Model.weeksOfMonth_eq_last_index
+#print axioms Model.monthWeeks_length
+#print axioms Model.monthDays_spec
+#print axioms Model.oct1582_21
+#print axioms Model.seasonMonths_spec
+#print axioms Model.halfYearMonths_spec
+#print axioms Model.yearMonths_spec
+#print axioms Model.nextYm_total
+#print axioms Model.nextYm_add
+#print axioms Model.nextYm_inv
+#print axioms Model.seasonNext_inv
+#print axioms Model.halfYearNext_inv
+#print axioms Model.week_next_plain
+#print axioms Model.week_next_plain_inv
+#print axioms Model.next_sep_one
+#print axioms Model.next_sep_walk
+#print axioms Model.prev_sep_walk
